@@ -244,6 +244,14 @@ func (x *Exec) loopFrame(s *State, lh *loopHavoc, run func(d *State) *State) {
 // havocLoop forgets everything the loop may write.
 func (x *Exec) havocLoop(s *State, written map[string]bool, wrLocal map[types.Object]bool) *loopHavoc {
 	lh := &loopHavoc{pre: map[string]string{}, preAlloc: s.allocPtr(), ctr: x.eng.ctr}
+	// earlier iterations may have allocated: the allocation pointer only grows (do this before the
+	// heap is havocked, so that havocked versions may contain references allocated in the loop)
+	{
+		cur := s.allocPtr()
+		nxt := x.eng.fresh("alloc", sInt)
+		s.pc = s.pc.push(mkCmp("<=", cur, nxt))
+		s.heap["$alloc"] = nxt
+	}
 	for _, n := range sortedStrings(written) {
 		if n == "$alloc" {
 			continue
@@ -271,13 +279,6 @@ func (x *Exec) havocLoop(s *State, written map[string]bool, wrLocal map[types.Ob
 				s.heapHavoc(n, srt)
 			}
 		}
-	}
-	// allocation pointer only grows
-	if written["$alloc"] || true {
-		cur := s.allocPtr()
-		nxt := x.eng.fresh("alloc", sInt)
-		s.pc = s.pc.push(mkCmp("<=", cur, nxt))
-		s.heap["$alloc"] = nxt
 	}
 	var objs []types.Object
 	for o := range wrLocal {
